@@ -41,6 +41,8 @@ func init() {
 					Required: []string{"values_mutated", "unmarshal_errors", "unmarshal_accepted"}},
 				{Name: "type-strings", Variant: "plain", Cases: nt, Run: c05typeStringCase, CaseTimeout: 120 * time.Second,
 					Required: []string{"type_strings"}},
+				{Name: "schema-rows", Variant: "plain", Cases: nt, Run: c05schemaCase, CaseTimeout: 120 * time.Second,
+					Required: []string{"schema_row_sets"}},
 				{Name: "sessions", Variant: "race", Cases: ns, Run: c05sessionCase, CaseTimeout: 120 * time.Second,
 					Required: []string{"sessions", "unexpected_in_handshake", "unexpected_reply_to_request", "hostile_events", "mutated_replies"}},
 			}
@@ -583,5 +585,87 @@ func c05setStream(frame []byte, version, stream int) {
 		}
 	} else if len(frame) >= 3 {
 		frame[2] = byte(stream)
+	}
+}
+
+// ---- schema rows -------------------------------------------------------------------------------------
+
+var c05validators = []string{"", "int", "text", "frozen<list<int>>", "map<text, int>", "org.apache.cassandra.db.marshal.Int32Type", "org.apache.cassandra.db.marshal.UTF8Type",
+	"org.apache.cassandra.db.marshal.CompositeType(org.apache.cassandra.db.marshal.Int32Type,org.apache.cassandra.db.marshal.UTF8Type)",
+	"org.apache.cassandra.db.marshal.CompositeType(org.apache.cassandra.db.marshal.UTF8Type,org.apache.cassandra.db.marshal.ColumnToCollectionType(6b:org.apache.cassandra.db.marshal.ListType(org.apache.cassandra.db.marshal.Int32Type)))",
+	"org.apache.cassandra.db.marshal.ReversedType(org.apache.cassandra.db.marshal.TimeUUIDType)", "org.apache.cassandra.db.marshal.CompositeType", "org.apache.cassandra.db.marshal.CompositeType()", "(", "x(", "tuple<"}
+
+// c05schemaCase feeds compileMetadata (the step between the rows of the schema tables and
+// KeyspaceMetadata) with rows a hostile, buggy or merely unusual server could return.
+func c05schemaCase(c *runner.Ctx, i int) {
+	r := c.Rng
+	proto := 1 + r.Intn(4)
+	val := func() string {
+		if r.Intn(4) == 0 {
+			return c05typeString(r, r.Intn(3))
+		}
+		return c05validators[r.Intn(len(c05validators))]
+	}
+	names := []string{"t1", "t2", "", "T1"}
+	var tables []gocql.TableMetadata
+	for k := r.Intn(4); k > 0; k-- {
+		t := gocql.TableMetadata{Keyspace: "ks", Name: names[r.Intn(len(names))], KeyValidator: val(), Comparator: val(), DefaultValidator: val(), ValueAlias: []string{"", "value", "v"}[r.Intn(3)]}
+		for j := r.Intn(4); j > 0; j-- {
+			t.KeyAliases = append(t.KeyAliases, fmt.Sprintf("key%d", j))
+		}
+		for j := r.Intn(4); j > 0; j-- {
+			t.ColumnAliases = append(t.ColumnAliases, fmt.Sprintf("col%d", j))
+		}
+		tables = append(tables, t)
+	}
+	idx := []int{0, 0, 0, 1, 1, 2, 3, -1, -2, 7, 100, 1 << 20, 1<<31 - 1, -1 << 31}
+	var cols []gocql.ColumnMetadata
+	for k := r.Intn(9); k > 0; k-- {
+		cols = append(cols, gocql.ColumnMetadata{Keyspace: "ks", Table: append(names, "nosuch")[r.Intn(5)], Name: []string{"a", "b", "c", "a", ""}[r.Intn(5)],
+			ComponentIndex: idx[r.Intn(len(idx))], Kind: gocql.ColumnKind(r.Intn(7)), Validator: val(), ClusteringOrder: []string{"", "", "asc", "desc", "none", "DESC"}[r.Intn(6)]})
+	}
+	fnames := []string{"f", "g", "", "sum"}
+	var funcs []gocql.FunctionMetadata
+	for k := r.Intn(3); k > 0; k-- {
+		funcs = append(funcs, gocql.FunctionMetadata{Keyspace: "ks", Name: fnames[r.Intn(len(fnames))]})
+	}
+	var aggs []gocql.VerifAggregate
+	for k := r.Intn(3); k > 0; k-- {
+		aggs = append(aggs, gocql.VerifAggregate{Name: fmt.Sprintf("agg%d", k), StateFunc: fnames[r.Intn(len(fnames))], FinalFunc: fnames[r.Intn(len(fnames))]})
+	}
+	var views []gocql.ViewMetadata
+	for k := r.Intn(3); k > 0; k-- {
+		views = append(views, gocql.ViewMetadata{Keyspace: "ks", Name: fmt.Sprintf("ty%d", k), FieldNames: []string{"x", "y"}[:r.Intn(3)]})
+	}
+	var mvs []string
+	for k := r.Intn(3); k > 0; k-- {
+		mvs = append(mvs, append(names, "nosuch")[r.Intn(5)])
+	}
+	c.Add("schema_row_sets", 1)
+	shape := fmt.Sprintf("v%d tables=%d columns=%d functions=%d aggregates=%d views=%d mvs=%d", proto, len(tables), len(cols), len(funcs), len(aggs), len(views), len(mvs))
+	c.Eval(runner.H("c05schema", shape), len(cols)+len(aggs) > 0)
+	var pan interface{}
+	alloc := c05allocated(func() {
+		defer func() {
+			if rec := recover(); rec != nil {
+				pan = fmt.Sprintf("%v\n%s", rec, c05stack())
+			}
+		}()
+		gocql.VerifCompileMetadata(proto, "ks", tables, cols, funcs, aggs, views, mvs)
+	})
+	wit := map[string]interface{}{"shape": shape, "tables": fmt.Sprintf("%+v", tables), "columns": clipS(fmt.Sprintf("%+v", cols)), "aggregates": fmt.Sprintf("%+v", aggs), "functions": fmt.Sprintf("%+v", funcs)}
+	if pan != nil {
+		site := "?"
+		if s := fmt.Sprint(pan); strings.Contains(s, "\n") {
+			site = strings.SplitN(strings.SplitN(s, "\n", 2)[1], " <- ", 2)[0]
+		}
+		c.Violation("C05:schema-rows:"+site+":panic", fmt.Sprintf("building the keyspace metadata from schema-table rows panicked: %v (%s)", pan, shape), wit)
+		return
+	}
+	if alloc > c05allocBase {
+		c.Violation("C05:schema-rows:allocation", fmt.Sprintf("building the keyspace metadata from a handful of schema rows allocated %d MiB (%s)", alloc>>20, shape), wit)
+	}
+	if c.WantSample() {
+		c.Sample(map[string]interface{}{"shape": shape})
 	}
 }
